@@ -42,6 +42,11 @@ def casemix(draw, s):
 @st.composite
 def value_for(draw, opt):
     garbage = draw(st.sampled_from([False] * 5 + [True]))
+    if garbage and opt in ("syslog_facility", "syslog_level") and draw(st.booleans()):
+        # near-valid names: one character away from a documented one, or the next number in a documented series
+        near = [b"LOCAL8", b"LOCAL9", b"LOCAL10", b"LOCAL07", b"LOCAL", b"LOCAL-1", b"local8", b"LOG_LOCAL9", b"LOCAL7x", b"KERNEL", b"USERS", b"AUT",
+                b"DEBUG1", b"DEBU", b"EMERGENCY", b"WARN", b"ERROR", b"CRITICAL", b"INFO ", b"LOG_", b"LOG_LOG_INFO", b"NOTICE0", b"7", b"0", b"8"]
+        return draw(st.sampled_from(near))
     if garbage:
         return draw(st.one_of(gen.text_bytes(0, 12), gen.bytes_nonul(0, 12).map(lambda b: b.replace(b"\n", b"_").replace(b"\r", b"_")),
                               st.sampled_from([b"", b":", b"::", b"A", b"LO", b"LOG", b"LOG_", b"XYZ_AUTH", b"-5", b"+5", b"5x",
@@ -65,7 +70,7 @@ def value_for(draw, opt):
         return lead + str(n).encode() + suf
     # strings
     return draw(st.one_of(gen.text_bytes(0, 40, boundaries=(0, 1, 900, 960)),
-                          st.sampled_from([b"%{cmdline}", b"a;b", b"a ;b", b"a#b", b" lead", b"x=y", b"k: v", b"'q'", b'"q"',
+                          st.sampled_from([b"%{cmdline}", b"a;b", b"a ;b", b"a#b", b" lead", b"x=y", b"k: v", b"'q'", b'"q"', b'"', b"'", b'""', b"'\"", b'" "',
                                            b"only_uid:0;noop", b"[x]", b"\\n", b"%"])))
 
 
